@@ -362,7 +362,7 @@ macro_rules! each_kind {
 }
 
 macro_rules! entry_harnesses {
-    ($m:ident, $any:ident, $hint:ident, $opt:ident, $any_s:ident, $opt_s:ident, $en_s:ident, $seq:ident) => {
+    ($m:ident, $any:ident, $hint:ident, $opt:ident, $any_s:ident, $opt_s:ident) => {
         #[kani::proof]
         #[kani::unwind(2)]
         fn $any() {
@@ -406,27 +406,22 @@ macro_rules! entry_harnesses {
             let (v, want) = any_short_string();
             expect_ok($m::opt(v, OptRec), OptSeen::Present(want));
         }
-
-        #[kani::proof]
-        #[kani::unwind(2)]
-        fn $en_s() {
-            // a unit variant is represented by its name as a string
-            let (v, tag) = any_short_string();
-            expect_ok($m::en(v, EnumRec), EnumSeen::Variant(tag, true));
-        }
-
-        #[kani::proof]
-        #[kani::unwind(3)]
-        fn $seq() {
-            let a: u64 = kani::any();
-            let b: i64 = kani::any();
-            let items = vec![Value { inner: ValueInner::U64(a) }, Value { inner: ValueInner::I64(b) }];
-            let arr = Value { inner: ValueInner::Array(Arc::new(items)) };
-            expect_ok($m::any(arr, SeqRec), (Some(Seen::U64(a)), Some(Seen::I64(b)), None));
-        }
     };
 }
 
-entry_harnesses!(vd, any_vd, hint_vd, option_vd, any_str_vd, option_str_vd, enum_str_vd, seq_vd);
-entry_harnesses!(byval, any_val, hint_val, option_val, any_str_val, option_str_val, enum_str_val, seq_val);
-entry_harnesses!(byref, any_ref, hint_ref, option_ref, any_str_ref, option_str_ref, enum_str_ref, seq_ref);
+// killed by: ValueDeserializer::deserialize_any `F64(v) => visitor.visit_i64(v as i64)` and `I64(v) => visitor.visit_u64(v as u64)`
+//            (any_*, hint_*, option_* of all three entry points); `String(v) => visitor.visit_str(&v.as_str()[..0])` (any_str_*, option_str_*)
+entry_harnesses!(vd, any_vd, hint_vd, option_vd, any_str_vd, option_str_vd);
+entry_harnesses!(byval, any_val, hint_val, option_val, any_str_val, option_str_val);
+// additionally killed by: reverting 0c4b9b9 (`option enum` back in forward_to_deserialize_any! of `&Value`, the two
+//            methods deleted): option_ref and option_str_ref fail, every other harness still passes
+entry_harnesses!(byref, any_ref, hint_ref, option_ref, any_str_ref, option_str_ref);
+
+// NOT KEPT (did not finish): deserialize_enum on a string value and deserialize_any on a 2-element
+// array.  A string `Value` has a niche-encoded discriminant that CBMC does not constant-fold, so
+// every drop of a `Value` on those paths explores the HashMap drop glue (> 25 min).
+//
+// NOT KEPT (the real code disagrees with C19, reported): a newtype struct.  `W(5)` serializes to
+// U64(5) (serialize_newtype_struct is transparent) but `deserialize_newtype_struct` is forwarded to
+// deserialize_any on all three entry points, which calls visit_u64 instead of
+// visit_newtype_struct: `W::deserialize(value)` is Err("invalid type: integer `5`, expected tuple struct W").
